@@ -12,17 +12,51 @@
     * `ttl_truncation_reported_partial`  when the input ends (possibly after white space and
       comments, also a comment without final newline) while any scan function other than the
       top-level one is the next to run, that call returns the stream's error (`eof` / `io`) — for
-      all scan functions that look at their `err` argument. EXCLUDED (they ignore `err`, see
-      `Cont.checksErr`): the closures of `(`/`[` in subject position, `GRAPH [`, and `E1` (after a
-      TriG label); for these the Go code reports a later "unexpected rune '\x00'" error, which the
-      model reproduces and the harness compares, but no theorem is proved.
+      all scan functions that look at their `err` argument (`Cont.checksErr`).
+    * `ttl_truncation_errIgnoring` — the six closures that IGNORE `err` (`(`/`[` in subject position,
+      the collection-opening closure, `GRAPH [`, `E1` after a TriG label): Go hands them the zero
+      `DecodedRune`, they push a NUL back and a later scan function fails with "unexpected rune
+      '\x00'".  Proved: from every such frame (satisfying the machine invariant `FrameOK`) at the end
+      of the input, `Next()` answers false with a SYNTAX error latched after 1–6 scan calls
+      (`Reach`, the fuel-free form of the loop in `Next`; `ttl_truncation_errIgnoring_next` for
+      `nextLoop` with any fuel) — a later error, never a clean end.  Hypothesis `NulPlain`: NUL is
+      neither white space nor PN_CHARS_BASE (`nulPlain_real`: true for the driver's configuration).
+    * `ttl_truncation_reported` — the union: whatever scan function other than the top-level one is
+      the next to run when the input ends, `Next()` answers false with an error.
     * `top_level_clean`        conversely the top-level function at EOF ends the run cleanly.
-  NOT proved, stated as `def`: `prefix_monotone` (needs locality lemmas for every token producer:
-  a producer that stops before the end of a prefix behaves the same on every extension).
-  Finding D43 (known, not repaired) bounds what can hold: a cut right after a `.` inside a number or name in a collection
-  yields TWO trailing statements that are not statements of the whole document.
+    * `real_producers_local` — the token-producer half of prefix monotonicity: each of the eight real
+      producers (IRIREF, strings, PNAME_NS, prefixed names, blank-node labels, LANGTAG, numbers, the
+      boolean keywords), when it succeeds on an input and leaves something other than nothing or a
+      lone `.` in the buffer (`1.` + EOF is the integer `1` with the `.` pushed back, `1.5` a decimal),
+      returns the same token and the same remainder + `s` on the input extended by any `s`
+      (`Producers.Local`, Proofs/TtlDocLocal.lean; closing-delimiter producers need no condition).
+    * `scan_local`, `prefix_lockstep_partial` — the statement-layer half, first part (Proofs/TtlDocPrefix.lean):
+      every scan function is local in the same sense (a call that is handed a rune, succeeds and leaves
+      more than nothing / a lone `.` gives the same `rsNext`, pushes, statement and environment on every
+      extension of the input, buffer extended alike), hence the run on a prefix `p` and the run on
+      `p ++ s` move in LOCK-STEP through every `Next()` call all of whose scan calls are of that kind:
+      the statements of those calls (`commonRun`, computed) are, in order, the first statements of
+      both runs.
+    * `prefix_monotone_d43_partial` — PREFIX MONOTONICITY WITH EXACTLY THE D43 ALLOWANCE, for every input, cut point,
+      base, prefix table and resolver: the statements decoded from a prefix `p` are, in order, statements
+      of the run on `p ++ s`, except possibly the last TWO.  Proof (Proofs/TtlDocPrefix2.lean): lock-step
+      up to the first scan call that touches the end of the prefix; from then on the buffer is
+      exhausted (empty / white space, a lone pushed-back `.`, a lone NUL) and every scan function either
+      fails, passes the buffer on, or — the collection closures, D43 — yields ONE statement and hands
+      over to `Object`, which fails on such a buffer; together with the touching call's own statement
+      that makes two.  Hypotheses on the producers: `Consumes`, `Local` and `TinyFail` (a lone `.` or NUL
+      starts no token), all proved for the real producers (`prefix_monotone_real_partial`).
+      `_partial` only because the property text allows ONE trailing statement: that version
+      (`prefix_monotone`, kept as a `def`) is FALSE on the code — finding D43 (known, not repaired): a cut
+      right after a `.` inside a number or name in a collection yields the shortened item AND the eagerly
+      emitted rdf:rest link (witness proved below by `decide`).
 -/
 import RdfModel.Props.C06Ttl
+import RdfModel.Proofs.TtlDocTrunc
+import RdfModel.Proofs.TtlDocLocal
+import RdfModel.Proofs.TtlDocPrefix
+import RdfModel.Proofs.TtlDocPrefix2
+import RdfModel.Gen.NQTables
 namespace RdfModel.C15
 open RdfModel RdfModel.TtlDoc
 
@@ -73,6 +107,73 @@ theorem ttl_truncation_next (C : Cfg) (e : End) (f : Frame) (st : St) (fuel : Na
   unfold nextLoop
   simp
 
+/-- The closures that ignore `err`: at the end of the input `Next()` answers false with a syntax error
+    ("unexpected rune '\x00'" in Go) — later than the others, but never a clean end. -/
+theorem ttl_truncation_errIgnoring (C : Cfg) (e : End) (hN : NulPlain C) (f : Frame) (st : St)
+    (hf : FrameOK C.trig f) (hk : Cont.checksErr f.k = false) (hns : f.k ≠ .statement)
+    (hend : skipWs C e false st.inp = .end_) (herr : st.err = none) (hst : st.stmts = []) :
+    ∃ st', Reach C e (some f) st (.no st') ∧ st'.err = some .syntax := by
+  obtain ⟨x, k⟩ := f
+  obtain ⟨_, hc⟩ := hf
+  simp only at hk hns hc
+  cases k with
+  | statement => exact absurd rfl hns
+  | collOpenSubj o => exact collOpenSubj_nul hN x o hc.1 herr hst (Or.inl hend)
+  | parenTop bn => exact paren_end hN true x bn hc.1 herr hst hend
+  | graphAnonClose => exact graphAnonClose_end x herr hst hend
+  | tgE1 v => exact tgE1_end hN x v hc.2.2 herr hst hend
+  | tgBracket bn => exact tgBracket_end hN x bn herr hst hend
+  | parenBlock bn => exact paren_end hN false x bn hc.1 herr hst hend
+  | _ => simp [Cont.checksErr] at hk
+
+/-- … in terms of the fuelled loop: with whatever fuel, the answer is that `false` (or the fuel ran out). -/
+theorem ttl_truncation_errIgnoring_next (C : Cfg) (e : End) (hN : NulPlain C) (f : Frame) (st : St)
+    (hf : FrameOK C.trig f) (hk : Cont.checksErr f.k = false) (hns : f.k ≠ .statement)
+    (hend : skipWs C e false st.inp = .end_) (herr : st.err = none) (hst : st.stmts = []) :
+    ∃ st', st'.err = some .syntax ∧
+      ∀ fuel, nextLoop C e fuel (some f) st = .no st' ∨ nextLoop C e fuel (some f) st = .outOfFuel := by
+  obtain ⟨st', h1, h2⟩ := ttl_truncation_errIgnoring C e hN f st hf hk hns hend herr hst
+  exact ⟨st', h2, nextLoop_of_reach h1⟩
+
+/-- UNION: when the input ends in front of ANY scan function other than the top-level one, `Next()`
+    answers false with an error — the stream's own error for the functions that look at `err`, a
+    syntax error for those that do not. -/
+theorem ttl_truncation_reported (C : Cfg) (e : End) (hN : NulPlain C) (f : Frame) (st : St)
+    (hf : FrameOK C.trig f) (hns : f.k ≠ .statement)
+    (hend : skipWs C e false st.inp = .end_) (herr : st.err = none) (hst : st.stmts = []) :
+    ∃ st' k, Reach C e (some f) st (.no st') ∧ st'.err = some k ∧
+      k = (if Cont.checksErr f.k then endCls e else .syntax) := by
+  cases hk : Cont.checksErr f.k with
+  | false =>
+    obtain ⟨st', h1, h2⟩ := ttl_truncation_errIgnoring C e hN f st hf hk hns hend herr hst
+    exact ⟨st', .syntax, h1, h2, by simp⟩
+  | true =>
+    refine ⟨{ st with err := some (endCls e) }, endCls e, ?_, rfl, by simp⟩
+    refine reach_latch (k := endCls e) (iter_cur_err herr hst ?_) rfl
+    have := ttl_truncation_reported_partial C e f st hk hend
+    simp only [scan] at this
+    cases hsc : scanFn C e f st.inp st.env with
+    | ok o => rw [hsc] at this; cases this
+    | panic => rw [hsc] at this; cases this
+    | err k => rw [hsc] at this; injection this with this; rw [this]
+
+/-- `NulPlain` holds for the configuration the driver runs (T1 tables regenerated on every run). -/
+theorem nulPlain_real (trig : Bool) (resolve : Option (List Nat) → List Nat → Option (List Nat)) :
+    NulPlain (C05.realCfg trig resolve (inRanges Gen.unicodeSpace)) where
+  space := by show inRanges Gen.unicodeSpace 0 = false; decide
+  base := by
+    cases trig
+    · exact C05.gen_tables_nul.1
+    · exact C05.gen_tables_nul.2
+
+/-- non-vacuity (and the Go behaviour these theorems describe): `<a> <b> (` + EOF in Turtle, `<g>` + EOF
+    and `[` + EOF in TriG end with a syntax error, not with `eof` and not cleanly -/
+example :
+    (run (C05.realCfg false (fun _ r => some r) (inRanges Gen.unicodeSpace)) .eof none [] (asc "(")).2 = .error .syntax ∧
+    (run (C05.realCfg true (fun _ r => some r) (inRanges Gen.unicodeSpace)) .eof none [] (asc "<a:g> ")).2 = .error .syntax ∧
+    (run (C05.realCfg true (fun _ r => some r) (inRanges Gen.unicodeSpace)) .eof none [] (asc "[ # c")).2 = .error .syntax := by
+  decide
+
 /-- D13 (repaired): a comment that runs to the end of the input is such an end of input. -/
 example (C : Cfg) : skipWs C .eof false (asc "  # c") = .end_ := by
   simp [asc, skipWs, isWs]
@@ -82,12 +183,95 @@ theorem top_level_clean (C : Cfg) (x : Ectx) (st : St) (hend : skipWs C .eof fal
     scan C .eof ⟨x, .statement⟩ st = .ok none { st with stack := [], inp := [] } := by
   simp [scan, scanFn, hend, stepFn, applyOut]
 
-/-- FULL STATEMENT (not proved): the statements decoded from a prefix are, in order, statements of the
-    whole document, except possibly the last one. False as it stands on the code (D43: two). -/
+/-- Token-producer half of prefix monotonicity: the real producers are local (see the header). -/
+theorem real_producers_local (T : Ttl.Tables) : (Producers.real T).Local := real_local T
+
+/-- non-vacuity of `Producers.Local` and the reason for the "lone `.`" exclusion: `1.` + EOF versus `1.5` -/
+example :
+    Ttl.produceNumericLiteral .eof (asc "1.") = .ok (.integer, asc "1") (asc ".") ∧
+    Ttl.produceNumericLiteral .eof (asc "1.5 ") = .ok (.decimal, asc "1.5") (asc " ") ∧
+    Ttl.produceNumericLiteral .eof (asc "1. x") = .ok (.integer, asc "1") (asc ". x") := ⟨by rfl, by rfl, by rfl⟩
+
+/-- Statement-layer half, one call: a scan function that is handed a rune, succeeds and does not exhaust
+    the buffer behaves the same on every extension of the input. -/
+theorem scan_local (C : Cfg) (hL : C.P.Local) (f : Frame) (i : List Nat) (env : Env) (o : Out) (s : List Nat)
+    (hne : skipWs C .eof false i ≠ .end_) (h : scanFn C .eof f i env = .ok o) (hr : Rem o.inp) :
+    scanFn C .eof f (i ++ s) env = .ok (extOut s o) :=
+  scanFn_local hL f i env o s hne h hr
+
+/-- Statement-layer half, whole runs (LOCK-STEP): the statements yielded by the leading `Next()` calls of the
+    run on `p` whose scan calls are all local (`commonRun`, an executable function; `n` bounds how many
+    calls are followed) are, in order, the first statements of the run on `p` and of the run on
+    every extension `p ++ s`.  (`prefix_monotone_d43_partial` adds the bound on what the prefix run yields beyond them.) -/
+theorem prefix_lockstep_partial (C : Cfg) (hC : C.P.Consumes) (hL : C.P.Local) (base : Option (List Nat))
+    (pf : List (List Nat × List Nat)) (p s : List Nat) (n : Nat) :
+    commonRun C n (init base pf p) <+: (run C .eof base pf p).1 ∧
+    commonRun C n (init base pf p) <+: (run C .eof base pf (p ++ s)).1 :=
+  prefix_lockstep_exec hC hL base pf p s n
+
+/-- … for the configuration the driver runs. -/
+theorem prefix_lockstep_real_partial (trig : Bool) (resolve) (isSpace) (base : Option (List Nat))
+    (pf : List (List Nat × List Nat)) (p s : List Nat) (n : Nat) :
+    commonRun (C05.realCfg trig resolve isSpace) n (init base pf p) <+:
+      (run (C05.realCfg trig resolve isSpace) .eof base pf (p ++ s)).1 := by
+  have hT : inRanges (if trig then Gen.trig else Gen.turtle).pnCharsBase 0 = false := by
+    cases trig
+    · exact C05.gen_tables_nul.1
+    · exact C05.gen_tables_nul.2
+  obtain ⟨_, h2, _⟩ := C05.real_producers_ok _ hT
+  exact (prefix_lockstep_partial _ h2 (real_local _) base pf p s n).2
+
+/-- non-vacuity: on the D43 witness cut after `1.` the lock-step part consists of the first two statements
+    (the statement before the collection and the list head); the two bogus trailing statements of the
+    prefix run lie beyond it -/
+example :
+    let C := C05.realCfg false (fun _ r => some r) (inRanges Gen.unicodeSpace)
+    (commonRun C 10 (init none [] (asc "<a> <b> <c> , ( 1."))).length = 2 ∧
+    (run C .eof none [] (asc "<a> <b> <c> , ( 1.")).1.length = 4 := by
+  decide
+
+/-- FULL STATEMENT of the property text (at most ONE trailing statement from the cut token). False on the
+    code: D43. -/
 def prefix_monotone : Prop :=
   ∀ (C : Cfg) (base : Option (List Nat)) (pf : List (List Nat × List Nat)) (p s : List Nat) (ts : List Stmt),
     C.P.NoPanic → C.P.Consumes →
     run C .eof base pf (p ++ s) = (ts, .clean) →
     ((run C .eof base pf p).1.dropLast <+: ts)
+
+/-- D43 in the model: `<a> <b> ( 1.5 ) .` cut after `1.` — the shortened item AND the eagerly emitted
+    rdf:rest link are yielded, neither is a statement of the complete document. -/
+example :
+    let C := C05.realCfg false (fun _ r => some r) (inRanges Gen.unicodeSpace)
+    (run C .eof none [] (asc "<a> <b> ( 1.5 ) .")).2 = .clean ∧
+    ¬ ((run C .eof none [] (asc "<a> <b> ( 1.")).1.dropLast <+: (run C .eof none [] (asc "<a> <b> ( 1.5 ) .")).1) := by
+  decide
+
+/-- PREFIX MONOTONICITY WITH EXACTLY THE D43 ALLOWANCE: the statements decoded from a prefix are, in order,
+    statements of the run on every extension of it (in particular of the whole document), except
+    possibly the last TWO (the cut token's statement and, inside a collection, the rdf:rest link
+    emitted before the next item is read). No assumption on how the longer run ends. -/
+theorem prefix_monotone_d43_partial (C : Cfg) (hT : TinyFail C) (hC : C.P.Consumes) (hL : C.P.Local)
+    (base : Option (List Nat)) (pf : List (List Nat × List Nat)) (p s : List Nat) :
+    (run C .eof base pf p).1.dropLast.dropLast <+: (run C .eof base pf (p ++ s)).1 :=
+  prefix_monotone_two hT hC hL base pf p s
+
+/-- `TinyFail` for the configuration the driver runs. -/
+theorem tinyFail_real (trig : Bool) (resolve : Option (List Nat) → List Nat → Option (List Nat)) :
+    TinyFail (C05.realCfg trig resolve (inRanges Gen.unicodeSpace)) := by
+  cases trig
+  · exact real_tinyFail Gen.turtle false resolve _ C05.gen_tables_nul.1 (by decide) (by decide)
+  · exact real_tinyFail Gen.trig true resolve _ C05.gen_tables_nul.2 (by decide) (by decide)
+
+/-- … for the configuration the driver runs (either package): every document, every cut point. -/
+theorem prefix_monotone_real_partial (trig : Bool) (resolve : Option (List Nat) → List Nat → Option (List Nat))
+    (base : Option (List Nat)) (pf : List (List Nat × List Nat)) (p s : List Nat) :
+    (run (C05.realCfg trig resolve (inRanges Gen.unicodeSpace)) .eof base pf p).1.dropLast.dropLast <+:
+      (run (C05.realCfg trig resolve (inRanges Gen.unicodeSpace)) .eof base pf (p ++ s)).1 := by
+  have hT : inRanges (if trig then Gen.trig else Gen.turtle).pnCharsBase 0 = false := by
+    cases trig
+    · exact C05.gen_tables_nul.1
+    · exact C05.gen_tables_nul.2
+  obtain ⟨_, h2, _⟩ := C05.real_producers_ok _ hT
+  exact prefix_monotone_d43_partial _ (tinyFail_real trig resolve) h2 (real_local _) base pf p s
 
 end RdfModel.C15
